@@ -16,7 +16,12 @@ IsEvent(name) == l <= Len(Traces[tid].events) /\ Ev.act = name /\ l' = l + 1 /\ 
 Logged == /\ nn' = ToFun(Ev.nn) /\ \A i \in Rows : ~nn'[i] => sg'[i] = Ev.sg[i]
 TRJ == IsEvent("RemoveJumps") /\ RemoveJumps /\ Logged
 TSN == IsEvent("SlerpNan") /\ SlerpNan(Ev.inplace) /\ Logged
-TraceNext == TRJ \/ TSN
+(* a preview: the object is logged unchanged, the returned rows are the filled array *)
+TPV == /\ IsEvent("Preview") /\ Preview
+       /\ nn = ToFun(Ev.nn) /\ \A i \in Rows : ~nn[i] => sg[i] = Ev.sg[i]
+       /\ \A i \in Rows : Ev.rsg[i] = SNsg(sg, nn)[i]
+TPK == IsEvent("Poke") /\ Poke(Ev.row) /\ Logged
+TraceNext == TRJ \/ TSN \/ TPV \/ TPK
 TraceSpec == TraceInit /\ [][TraceNext]_tvars
 (* a state that violates an invariant is pruned and does not count as progress (an INVARIANT in the cfg would stop
    the whole batch at the first violation; priming the invariants into the actions is an order of magnitude slower) *)
